@@ -316,7 +316,7 @@ func (f *Forest) byAlias(a string) *EntitySpec {
 	return nil
 }
 
-var dirPool = []string{"", "ca", "users", "users/eu", "a/b/c"}
+var dirPool = []string{"", "ca", "users", "users/eu", "a/b/c", "pki.v1", "site.example.org/ca"}
 var extPool = []string{"yaml", "yml", "json", "YAML", "Yml", "JSON"}
 
 func genForest(r *Rng, o ForestOpts) *Forest {
